@@ -928,8 +928,11 @@ def run(ctx, pid):
         "composite: all control patterns with <= %d controls; random gate trees through the public API (depth <= 4, <= %d wires, "
         "controlled / multiplexed (1-3 controls) / block-encoding (3 methods, random Hermitian H, norm < 1) / time evolution / "
         "prepare (negative, zero entries) / general / elementary leaves, bound and unbound particles); GeneralGate matrices around "
-        "the allclose tolerances; 0-control controlled gates and 1-target multiplexers. non-trivial = tree of depth >= 2 (for C16: "
-        "one that claims to be Hermitian), or a distinct tolerance case" % ((5, 6) if ctx.thorough else (4, 5)))
+        "the allclose tolerances; 0-control controlled gates and 1-target multiplexers; control state omitted (default); PrepareGate on basis / "
+        "near-basis / one-dominant-entry vectors (1-3 qubits, transposed, controlled, multiplexed); gates over by-reference operators "
+        "along histories (as_matrix, re-parametrise the operator in place, as_matrix again; inverse / copy / controlled made before and "
+        "after); C02 only: 9-%d controls on a 1-qubit target against the bitwise reference (numpy only). non-trivial = tree of depth >= 2 (for C16: "
+        "one that claims to be Hermitian), or a distinct tolerance case" % ((5, 6, 10) if ctx.thorough else (4, 5, 10)))
     ctx.lib(["Gates/CompCheck", "Gates/CompProofs"])
     src = os.path.join(COQ, "props", pid + "c.v")
     forbidden_gate(ctx, src)
@@ -953,6 +956,8 @@ def run(ctx, pid):
         ctx.count("assumption_%s_instances" % k, sum(ASSUME[k]))
     special_inputs(ctx, pid)
     history_checks(ctx, pid)
+    if pid == "C02":
+        wide_control_checks(ctx)
     gcases = general_cases(ctx, pid) if pid in ("C01", "C16") else []
     for suite, cs, fn, shard in (("comp_zi", cases_zi, "bad_cases_zi", 12), ("comp_fi", cases_fi, "bad_cases_fi", 6),
                                  ("comp_general", gcases, "bad_cases_g", 40)):
@@ -963,6 +968,64 @@ def run(ctx, pid):
         for i, d in dis:
             if d.get("what") == "tree":
                 check_tree(ctx, pid, d["spec"], [], [], only_oracle=True)
+
+
+# =============================================================================== wide controlled gates (numpy only)
+def check_wide_control(ctx, inp):
+    """9-11 controls on a 1-qubit target: too large for the Coq case files (and not needed: the theorem is for every number
+    of controls), but an index computed in a narrow integer type only goes wrong here.  Bitwise reference: identity everywhere
+    except the 2x2 target block at the rows/columns whose control bits (most significant first) equal the pattern."""
+    import qib
+    pat = list(inp["pat"])
+    nc = len(pat)
+    tg = {"S": qib.operator.SGate, "Y": qib.PauliYGate, "H": qib.HadamardGate}[inp["target"]]()
+    try:
+        g = qib.ControlledGate(tg, nc) if inp.get("default_state") else qib.ControlledGate(tg, nc, pat)
+        M = dense(g.as_matrix())
+    except Exception as e:
+        ctx.fail("wide-control:raises", inp, "a matrix", repr(e)[:200])
+        return
+    N = 2 ** (nc + 1)
+    if M.shape != (N, N):
+        ctx.fail("wide-control:shape", inp, (N, N), M.shape)
+        return
+    U = dense(tg.as_matrix())
+    ic = 0
+    for b in pat:
+        ic = 2 * ic + int(b)
+    D = M - np.eye(N)
+    D[2 * ic:2 * ic + 2, 2 * ic:2 * ic + 2] -= U - np.eye(2)
+    dev = float(np.abs(D).max())
+    if not dev <= TOL:
+        nz = np.argwhere(np.abs(M - np.eye(N)) > TOL)
+        ctx.fail("wide-control:differs-from-bitwise-reference", inp, "target block at rows %d,%d (pattern read MSB first)" % (2 * ic, 2 * ic + 1),
+                 "deviation %g; non-identity entries at rows %s" % (dev, sorted({int(r) for r, _ in nz})[:4]))
+
+
+def wide_control_inputs(ctx):
+    rng = ctx.rng
+    out = []
+    for nc in (9, 10):           # 11 controls would need > 1 GB for the dense kron; the class (index wider than a byte) starts at 9
+        pats = [[1] * nc, [1] + [0] * (nc - 1), [0] * (nc - 8) + [1] * 8]
+        p = [rng.randint(0, 1) for _ in range(nc)]
+        p[rng.randrange(nc - 8)] = 1                    # a 1 among the leading (nc - 8) bits
+        pats.append(p)
+        for _ in range(1 if not ctx.thorough else 6):
+            if nc == 9 or ctx.thorough:
+                q = [rng.randint(0, 1) for _ in range(nc)]
+                q[rng.randrange(nc - 8)] = 1
+                pats.append(q)
+        for k, pat in enumerate(pats):
+            out.append({"comp": True, "what": "wide-control", "pat": pat, "target": "SYH"[k % 3]})
+        out.append({"comp": True, "what": "wide-control", "pat": [1] * nc, "target": "S", "default_state": True})
+    return out
+
+
+def wide_control_checks(ctx):
+    for inp in wide_control_inputs(ctx):
+        ctx.count("wide_control_nc=%d" % len(inp["pat"]))
+        check_wide_control(ctx, inp)
+        ctx.nontriv(("wide-control", tuple(inp["pat"]), inp["target"]))
 
 
 # =============================================================================== histories: operators held by reference
@@ -1314,6 +1377,8 @@ def replay(ctx, pid, data):
         check_circuit(ctx, inp)
     elif inp["what"] == "history":
         check_history(ctx, pid, inp)
+    elif inp["what"] == "wide-control":
+        check_wide_control(ctx, inp)
     elif inp["what"] == "circuit-history":
         check_circuit_history(ctx, inp)
     elif inp["what"] == "general":
